@@ -57,7 +57,13 @@ def run(ctx):
             mo = W.dec_field(o, n, m)
             d = W.maxdiff(r, mo)
             worst[(api, meth)] = max(worst.get((api, meth), 0.0), d)
-            if not d <= W.tol(api) * scale * (10 if meth == 'ir' else 1):
+            # float32 conditioning of the torch impulse-response chirp exp(i k r^2 / 2z): a phase of size phi carries an absolute error
+            # of about phi * eps32 per operation, so the comparison with the float64 model is widened by that amount (matters for |z| << 1)
+            extra = 0.0
+            if meth == 'ir' and api == 'torch' and z != 0:
+                phimax = (2 * math.pi / lam) / (2 * abs(z)) * ((n * dx) ** 2 + (m * dx) ** 2)
+                extra = 32 * 6e-8 * phimax * max(1.0, float(np.max(np.abs(mo))))
+            if not d <= W.tol(api) * scale * (10 if meth == 'ir' else 1) + extra:
                 ctx.alarm('correspondence', 'model and implementation differ by %.3g for %s %s %dx%d z=%g dx=%g'
                           % (d, api, meth, n, m, z, dx))
         # ---- conclusion monitors on the implementation's output
